@@ -13,7 +13,7 @@ TRUSTED_BASE = [
 ]
 ASSUMPTIONS = [
     "platform: x86-64 Linux, GCC 12, LP64, char signed, two's complement narrowing (GCC documentation 4.5)",
-    "the archive positions (root, array element, object member, map key, CSV cell, XML attribute) are not exercised here: this check covers Convert::To / TryTo and Detail::ConvertByPolicy, through which the MsgPack/JSON/CSV readers funnel every number; the XML attribute path (F33, plain static_cast of as_int) bypasses both and is NOT covered by this check",
+    "the archive positions (root, array element, object member, map key, CSV cell, XML attribute) are not exercised here: this check covers Convert::To / TryTo and Detail::ConvertByPolicy, through which the MsgPack/JSON/CSV readers and the XML element AND attribute paths funnel every number (the attribute path used plain static_cast of pugixml's as_int family: F33, repaired by eaa6abb; it is exercised by the jx family's correspondence, C08)",
     "C++ undefined behaviour is observed through UBSan (-fsanitize=undefined,float-cast-overflow): a trap is the outcome UB, which the model no longer produces anywhere (T_C04_int_to_f32/f64_total) - so a regression of fix 30e94fb shows as a disagreement",
 ]
 
